@@ -9,7 +9,7 @@ fi
 mkdir -p /tmp/ve
 for k in $(seq 1 "$1"); do
   d=/tmp/ve/$k
-  if [ -d "$d" ]; then git -C "$d" checkout -q --detach "$(git rev-parse HEAD)"; else git worktree add -q --detach "$d" HEAD; fi
+  if [ -d "$d" ]; then git -C "$d" checkout -q -f --detach "$(git rev-parse HEAD)"; else git worktree add -q --detach "$d" HEAD; fi
   mkdir -p "$d/lean"; rsync -a --delete .build/ "$d/.build/" --exclude run --exclude evidence-scratch; rsync -a --delete lean/.lake/ "$d/lean/.lake/"
   rsync -a lean/WtfModel/Gen/ "$d/lean/WtfModel/Gen/"
 done
